@@ -149,14 +149,19 @@ static void run_positive(long idx)
     int fam = (int)vr_u(&r, DF_NB); if (fam == DF_RANDOM && vr_chance(&r, 2, 3)) fam = DF_LZ;
     size_t const n = pick_size(&r, g_maxSize);
     uint8_t* src = (uint8_t*)malloc(n + 8); gen_data(&r, src, n, fam);
-    int const wlog = (int)vr_range(&r, 10, 21); unsigned const minMatch = (unsigned)vr_range(&r, 3, 7);
+    int wlog = (int)vr_range(&r, 10, 21); unsigned const minMatch = (unsigned)vr_range(&r, 3, 7);
     int maxBlock = vr_chance(&r, 1, 3) ? (int)vr_range(&r, 1024, 131072) : 0;
     int const mode = (int)vr_u(&r, 4);
     if (mode == 3 && vr_chance(&r, 1, 2)) maxBlock = (int)vr_range(&r, 1024, 16384);      /* producers are called once per block: many blocks = many producer decisions per frame */
     if (mode == 3 && vr_chance(&r, 1, 2)) { fam = vr_chance(&r, 2, 3) ? DF_REPBAIT : DF_LZ; gen_data(&r, src, n, fam); }      /* several live offsets: the repeat-offset history matters from block to block */       /* 0 own parser explicit, 1 own parser no delimiters, 2 generateSequences, 3 registered producer */
-    int const repSearch = (int)vr_range(&r, 0, 2); int const level = (int)vr_range(&r, 1, 12);
+    int const repSearch = (int)vr_range(&r, 0, 2); int level = (int)vr_range(&r, 1, 12);
     size_t dictLen = 0; uint8_t* dict = NULL;
-    if (mode < 2 && vr_chance(&r, 1, 3)) { dictLen = vr_chance(&r, 1, 3) ? 1 + vr_u(&r, 200000) : 1 + vr_u(&r, 20000); dict = (uint8_t*)malloc(dictLen); if (n > 16) { for (size_t i = 0; i < dictLen; i++) dict[i] = src[(i * 3) % n]; memcpy(dict, src + vr_u64(&r, n / 2), V_MIN(dictLen, n / 2)); } else gen_data(&r, dict, dictLen, fam); }
+    int const farDict = mode < 2 && (idx % 8) == 3 && n >= 280000;      /* stratum: offsets whose code lies just above what the dictionary's offset table holds, from the second block on */
+    if (farDict) { wlog = (int)vr_range(&r, 19, 21); level = (int)vr_range(&r, 1, 5); maxBlock = 0; dictLen = 8000 + vr_u(&r, 50000); dict = (uint8_t*)malloc(dictLen); vr_fill(&r, dict, dictLen);
+        /* block 1: noise with a few near matches and matches into the dictionary tail; later blocks: noise with chunks taken from the START of the dictionary */
+        vr_fill(&r, src, n); for (size_t p = 3000; p + 200 < (128u << 10); p += 2000 + vr_u(&r, 9000)) { size_t const l = 8 + vr_u(&r, 60); if (vr_chance(&r, 1, 2)) memmove(src + p, src + p - 50 - vr_u(&r, 2000), l); else memcpy(src + p, dict + dictLen - l - vr_u(&r, 500), l); }
+        for (size_t p = (128u << 10) + 70000 + vr_u(&r, 40000); p + 400 < n; p += 3000 + vr_u(&r, 20000)) { size_t const l = 16 + vr_u(&r, 200); memcpy(src + p, dict + vr_u(&r, 2000), l); } }
+    else if (mode < 2 && vr_chance(&r, 1, 3)) { dictLen = vr_chance(&r, 1, 3) ? 1 + vr_u(&r, 200000) : 1 + vr_u(&r, 20000); dict = (uint8_t*)malloc(dictLen); if (n > 16) { for (size_t i = 0; i < dictLen; i++) dict[i] = src[(i * 3) % n]; memcpy(dict, src + vr_u64(&r, n / 2), V_MIN(dictLen, n / 2)); } else gen_data(&r, dict, dictLen, fam); }
     parsecfg C; C.window = (size_t)1 << wlog; C.blockMax = V_MIN((size_t)(maxBlock ? maxBlock : (128 << 10)), C.window); C.minMatch = minMatch; C.explicitDelims = (mode == 0); C.dictLen = dictLen; C.dict = dict; C.style = (int)vr_u(&r, 4);
     size_t const cap = ZSTD_compressBound(n) + 64; uint8_t* dst = (uint8_t*)malloc(cap);
     ZSTD_CCtx* c = ZSTD_createCCtx();
@@ -175,7 +180,7 @@ static void run_positive(long idx)
         /* half of the dictionaries are wrapped into a FORMATTED dictionary with unusual entropy tables (truncated alphabets, holes, "less than one" counts, odd repeat offsets):
          * the parse only refers to the content; the tables are what the sequence encoder may re-use ("repeat" mode) in the first blocks */
         uint8_t* fdict = NULL; size_t flen = 0; char feat[80] = "";
-        if (dict && dictLen >= 8 && vr_chance(&r, 1, 2)) { fdict = (uint8_t*)malloc(dictLen + 4096); flen = build_dict(&r, fdict, dictLen + 4096, dict, dictLen, feat, sizeof feat); if (!flen) { free(fdict); fdict = NULL; } }
+        if (dict && dictLen >= 8 && (farDict || vr_chance(&r, 1, 2))) { fdict = (uint8_t*)malloc(dictLen + 4096); g_ofExact = farDict && vr_chance(&r, 2, 3); flen = build_dict(&r, fdict, dictLen + 4096, dict, dictLen, feat, sizeof feat); g_ofExact = 0; if (!flen) { free(fdict); fdict = NULL; } }
         if (fdict) { size_t const e = vr_chance(&r, 1, 2) ? ZSTD_CCtx_refPrefix_advanced(c, fdict, flen, ZSTD_dct_fullDict) : ZSTD_CCtx_loadDictionary_advanced(c, fdict, flen, ZSTD_dlm_byRef, ZSTD_dct_fullDict);
             ZSTD_DDict* dd = ZSTD_createDDict_advanced(fdict, flen, ZSTD_dlm_byRef, ZSTD_dct_fullDict, ZSTD_defaultCMem);
             if (ZSTD_isError(e) || !dd) { v_stat("formatted_dictionaries_refused_by_a_loader", 1); ZSTD_CCtx_refPrefix(c, NULL, 0); ZSTD_CCtx_loadDictionary(c, NULL, 0); free(fdict); fdict = NULL; } else v_stat("formatted_dictionaries", 1); ZSTD_freeDDict(dd); }
